@@ -43,6 +43,14 @@ func vGate(ev string, node uint32, msg uint64, kv ...interface{}) {
 	}
 }
 
+// vRouteMiss reports a response for which no router is registered
+// (called under responseMut).
+func vRouteMiss(c *channel, msgID uint64) {
+	if _, ok := c.responseRouters[msgID]; !ok {
+		vEmit("Route", c.node.ID(), msgID, "found", false, "streaming", false, "why", "resp")
+	}
+}
+
 // VerifRouterCount returns the number of response routers currently
 // registered on the node's channel (-1 if the node has no channel).
 func VerifRouterCount(n *RawNode) int {
